@@ -1,4 +1,4 @@
-/- `_tdma_sched_bucket_sort` (the exchange sort on `seq[]`) and the loop of `tdma_sched_execute`. -/
+/- `_tdma_sched_bucket_sort` (the exchange sort on `seq[]`); callbacks that report success. -/
 import OsmoVerif.Lemmas.TdmaSchedBasic
 
 set_option linter.unusedVariables false
@@ -153,11 +153,16 @@ entries are the live slots in ascending priority order and whose other entries a
 theorem bucketSort_spec (b : Bucket) (hb : BucketWF b) :
     ∃ seq, bucketSort b = .ok seq ∧ seq.Perm (List.range 8) ∧
       (seq.take b.numItems).Perm (List.range b.numItems) ∧
-      (∀ a c, a < c → c < b.numItems → prioAt b.item seq a ≤ prioAt b.item seq c) := by
+      (∀ a c, a < c → c < b.numItems → prioAt b.item seq a ≤ prioAt b.item seq c) ∧
+      (∀ k, b.numItems ≤ k → k < 8 → seq.getD k 0 = k) := by
   obtain ⟨hlen, hn⟩ := hb
   obtain ⟨seq, he, hp, hfix, hs⟩ := sortOuter_spec b.item hlen b.numItems hn b.numItems 0
     (List.range 8) (by omega) (List.Perm.refl _) (by intro a c h; omega)
-  refine ⟨seq, by simp only [bucketSort, nc]; exact he, hp, ?_, hs⟩
+  refine ⟨seq, by simp only [bucketSort, nc]; exact he, hp, ?_, hs, ?_⟩
+  rotate_left
+  · intro k hk hk8
+    rw [hfix k hk, getD_eq_getElem' (List.range 8) k 0 (by simpa using hk8)]
+    simp
   have hl : seq.length = 8 := by simpa using hp.length_eq
   have hdrop : seq.drop b.numItems = (List.range 8).drop b.numItems := by
     apply List.ext_getElem?
@@ -181,125 +186,16 @@ theorem bucketSort_spec (b : Bucket) (hb : BucketWF b) :
   rw [this] at h2
   exact h2
 
-/-! ### the loop of `tdma_sched_execute` -/
+/-! ### callbacks that report success -/
 
 /-- a callback invocation that reports success -/
 def itemOk (env : Env) (it : Item) : Prop :=
   match it.cb with
   | .null => False
   | .endSet => True
-  | .fn id => 0 ≤ env id it.p1 it.p2 it.p3
+  | .fn id => 0 ≤ env.ret id it.p1 it.p2 it.p3
 
 instance (env : Env) (it : Item) : Decidable (itemOk env it) := by
   unfold itemOk; cases it.cb <;> infer_instance
-
-theorem callCb_ok (env : Env) (it : Item) (h : itemOk env it) :
-    ∃ rc, callCb env it = .ok rc ∧ ¬ rc < 0 := by
-  unfold itemOk at h
-  unfold callCb
-  cases hcb : it.cb with
-  | null => simp [hcb] at h
-  | endSet => exact ⟨0, rfl, by omega⟩
-  | fn id => simp only [hcb] at h; exact ⟨_, rfl, by omega⟩
-
-theorem execLoop_ok (env : Env) (items : List Item) (seq : List Nat) (hlen : items.length = 8)
-    (hp : seq.Perm (List.range 8)) (n : Nat) (hn : n ≤ 8)
-    (hok : ∀ k, k < n → itemOk env (itemAt items seq k)) :
-    ∀ (rem i : Nat) (ne : Int) (ran : List Item), i + rem = n →
-      execLoop env items seq rem i ne ran =
-        .ok (.done (ne + rem), ran ++ ((List.range rem).map (fun k => itemAt items seq (i + k)))) := by
-  intro rem
-  induction rem with
-  | zero => intro i ne ran _; simp [execLoop]
-  | succ rem ih =>
-    intro i ne ran hi
-    have hl : seq.length = 8 := by simpa using hp.length_eq
-    have hsi : seq.getD i 0 < 8 := perm_range_lt hp i (by omega)
-    simp only [execLoop, bind, Except.bind]
-    rw [idx_ok_getD seq i 0 (by omega)]
-    simp only []
-    rw [idx_ok_getD items (seq.getD i 0) zeroItem (by omega)]
-    simp only []
-    obtain ⟨rc, hrc, hge⟩ := callCb_ok env _ (hok i (by omega))
-    simp only [itemAt] at hrc
-    rw [hrc]
-    simp only [hge, if_false]
-    rw [ih (i + 1) (ne + 1) _ (by omega)]
-    have e1 : ne + 1 + (rem : Int) = ne + ((rem + 1 : Nat) : Int) := by omega
-    have e2 : List.map (fun k => itemAt items seq (i + k)) (List.range (rem + 1)) =
-        items.getD (seq.getD i 0) zeroItem :: List.map (fun k => itemAt items seq (i + 1 + k)) (List.range rem) := by
-      rw [List.range_succ_eq_map, List.map_cons, List.map_map]
-      simp only [itemAt, Nat.add_zero, List.cons.injEq, true_and]
-      apply List.map_congr_left
-      intro k _
-      simp only [Function.comp, Nat.succ_eq_add_one]
-      have : i + 1 + k = i + (k + 1) := by omega
-      rw [this]
-    rw [e1, e2, List.append_assoc, List.singleton_append]
-
-/-- the loop either runs to the end (count `≥ 0`) or stops at a callback that returned `rc < 0` -/
-theorem execLoop_result (env : Env) (items : List Item) (seq : List Nat) :
-    ∀ (rem i : Nat) (ne : Int) (ran : List Item) (e : ExecEnd) (r : List Item),
-      execLoop env items seq rem i ne ran = .ok (e, r) → 0 ≤ ne →
-      match e with
-      | .done k => 0 ≤ k
-      | .err rc => rc < 0 := by
-  intro rem
-  induction rem with
-  | zero =>
-    intro i ne ran e r h hne
-    simp only [execLoop, Except.ok.injEq, Prod.mk.injEq] at h
-    rw [← h.1]; exact hne
-  | succ rem ih =>
-    intro i ne ran e r h hne
-    simp only [execLoop, bind, Except.bind] at h
-    cases h1 : idx seq i with
-    | error f => simp [h1] at h
-    | ok si =>
-      simp only [h1] at h
-      cases h2 : idx items si with
-      | error f => simp [h2] at h
-      | ok item =>
-        simp only [h2] at h
-        cases h3 : callCb env item with
-        | error f => simp [h3] at h
-        | ok rc =>
-          simp only [h3] at h
-          by_cases hneg : rc < 0
-          · simp only [hneg, if_true, pure, Except.pure, Except.ok.injEq, Prod.mk.injEq] at h
-            rw [← h.1]; exact hneg
-          · simp only [hneg, if_false] at h
-            exact ih (i + 1) (ne + 1) _ e r h (by omega)
-
-/-- error path of `tdma_sched_execute`: a negative return value means a callback failed, and then the
-scheduler state is exactly what it was (the bucket is not cleared: its items stay scheduled) -/
-theorem execute_error_keeps_state (env : Env) (s s' : Sched) (rc : Int) (ran : List Item)
-    (h : execute env s = .ok (s', rc, ran)) (hrc : rc < 0) : s' = s := by
-  simp only [execute, bind, Except.bind] at h
-  cases h1 : idx s.bucket s.cur with
-  | error f => simp [h1] at h
-  | ok b =>
-    simp only [h1] at h
-    cases h2 : bucketSort b with
-    | error f => simp [h2] at h
-    | ok seq =>
-      simp only [h2] at h
-      cases h3 : execLoop env b.item seq b.numItems 0 0 [] with
-      | error f => simp [h3] at h
-      | ok res =>
-        obtain ⟨e, r⟩ := res
-        simp only [h3] at h
-        have hres := execLoop_result env b.item seq b.numItems 0 0 [] e r h3 (by omega)
-        cases e with
-        | err rc' =>
-          simp only [pure, Except.pure, Except.ok.injEq, Prod.mk.injEq] at h
-          exact h.1.symm
-        | done k =>
-          simp only [] at h hres
-          cases h4 : setIdx s.bucket s.cur { b with numItems := 0 } with
-          | error f => simp [h4] at h
-          | ok bs =>
-            simp only [h4, pure, Except.pure, Except.ok.injEq, Prod.mk.injEq] at h
-            omega
 
 end OsmoVerif.TdmaSched
